@@ -8,10 +8,16 @@ From Stam Require Import Base.Tac Base.ListAux Model.Offset Model.Store Model.Co
   Proofs.StoreDataDef Proofs.StoreItems Proofs.StoreData Proofs.StoreSets Proofs.StoreErr Proofs.StoreIds
   Proofs.StoreStable Proofs.Compress.
 
-Definition SelInv (s : store) : Prop := forall r rs, get_res s r = Some rs -> NoDup (r_sels rs).
+(* a property of every live resource *)
+Definition AllRes (PR : res -> Prop) (s : store) : Prop := forall r rs, get_res s r = Some rs -> PR rs.
+
+Lemma AllRes_same (PR : res -> Prop) s s' : ress s' = ress s -> AllRes PR s -> AllRes PR s'.
+Proof. intros E H r rs Hr. apply (H r rs). unfold get_res in *. rewrite <- E. exact Hr. Qed.
+
+Definition SelInv (s : store) : Prop := AllRes (fun rs => NoDup (r_sels rs)) s.
 
 Lemma SelInv_same s s' : ress s' = ress s -> SelInv s -> SelInv s'.
-Proof. intros E H r rs Hr. apply (H r rs). unfold get_res in *. rewrite <- E. exact Hr. Qed.
+Proof. apply AllRes_same. Qed.
 
 Lemma NoDup_snoc {A} (l : list A) x : NoDup l -> ~ In x l -> NoDup (l ++ [x]).
 Proof.
@@ -190,27 +196,29 @@ Proof.
   - cbn [fst]. apply (SelInv_same s2); [|exact I2]. rewrite index_ann_ress. destruct (ab_id b); reflexivity.
 Qed.
 
-Theorem step_SelInv s o : SelInv s -> SelInv (fst (step s o)).
+Theorem step_AllRes (PR : res -> Prop) : (forall id len, PR (mkres id len [])) ->
+  (forall s b, AllRes PR s -> AllRes PR (fst (annotate s b))) ->
+  forall s o, AllRes PR s -> AllRes PR (fst (step s o)).
 Proof.
-  intros H. destruct o; cbn [step].
+  intros Hnew Hann s o H. destruct o; cbn [step].
   - unfold add_res. destruct (id_get (ridx s) id) as [h|]; [destruct (get_res s h) as [r|]; [destruct (r_len r =? len)|]; exact H|].
     cbn [fst]. intros r rs. unfold get_res. cbn [set_ridx set_ress ress]. rewrite slot_app_new.
-    destruct (r =? length (ress s)); [intros E; injection E as <-; constructor|apply H].
-  - apply (SelInv_same s); [apply add_set_frame|exact H].
-  - destruct (store_insert_data_frame s b) as (F & _). destruct (store_insert_data s b) as [s' [[d x]|]]; apply (SelInv_same s); assumption.
-  - apply annotate_SelInv. exact H.
-  - apply (SelInv_same s); [|exact H]. unfold rm_annotation. destruct (ref_ann s r) as [h|]; [|reflexivity]. apply remove_ann_frame.
+    destruct (r =? length (ress s)); [intros E; injection E as <-; apply Hnew|apply H].
+  - apply (AllRes_same PR s); [apply add_set_frame|exact H].
+  - destruct (store_insert_data_frame s b) as (F & _). destruct (store_insert_data s b) as [s' [[d x]|]]; apply (AllRes_same PR s); assumption.
+  - apply Hann. exact H.
+  - apply (AllRes_same PR s); [|exact H]. unfold rm_annotation. destruct (ref_ann s r) as [h|]; [|reflexivity]. apply remove_ann_frame.
   - unfold rm_data. destruct (to_handle (sidx s) d) as [d0|]; [|exact H]. destruct (get_set s d0) as [ds|]; [|exact H].
-    destruct (to_handle (d_xidx ds) x) as [x0|]; [|exact H]. apply (SelInv_same s); [apply remove_data_h_sets|exact H].
+    destruct (to_handle (d_xidx ds) x) as [x0|]; [|exact H]. apply (AllRes_same PR s); [apply remove_data_h_sets|exact H].
   - unfold rm_key. destruct (to_handle (sidx s) d) as [d0|]; [|exact H]. destruct (get_set s d0) as [ds|]; [|exact H].
     destruct (to_handle (d_kidx ds) k) as [k0|]; [|exact H].
     assert (F : forall xs s0, ress (fold_left (fun s x => fst (remove_data_h s d0 x strict)) xs s0) = ress s0).
     { induction xs as [|x xs IH]; intros s0; cbn [fold_left]; [reflexivity|]. rewrite IH. apply remove_data_h_sets. }
     pose proof (F (rget (d_k2x ds) k0) s) as F1. set (s1 := fold_left _ (rget (d_k2x ds) k0) s) in *.
-    assert (I1 : SelInv s1) by (apply (SelInv_same s); assumption).
+    assert (I1 : AllRes PR s1) by (apply (AllRes_same PR s); assumption).
     destruct (get_set s1 d0) as [ds1|]; [|exact I1]. destruct (slot (d_keys ds1) k0) as [tok|]; [|exact I1]. cbn [fst].
-    match goal with |- SelInv (set_kamm (remove_anns ?s2 ?l) _) =>
-      destruct (remove_anns_frame l s2) as (_&F2&_); apply (SelInv_same s1); [cbn [set_kamm ress]; rewrite F2; reflexivity|exact I1] end.
+    match goal with |- AllRes PR (set_kamm (remove_anns ?s2 ?l) _) =>
+      destruct (remove_anns_frame l s2) as (_&F2&_); apply (AllRes_same PR s1); [cbn [set_kamm ress]; rewrite F2; reflexivity|exact I1] end.
   - unfold rm_resource. destruct (ref_res s r) as [h|]; [|exact H].
     destruct (remove_anns_frame (rget (ramm s) h) s) as (_&A1&_).
     set (s1 := remove_anns s (rget (ramm s) h)) in *.
@@ -218,10 +226,10 @@ Proof.
     set (s2 := remove_anns s1 _) in *.
     set (s3 := set_trm _ _).
     assert (E3 : ress s3 = ress s) by (unfold s3; cbn [set_trm set_ramm ress]; congruence).
-    destruct (get_res s3 h) as [rs|]; cbn [fst]; [|apply (SelInv_same s); assumption].
+    destruct (get_res s3 h) as [rs|]; cbn [fst]; [|apply (AllRes_same PR s); assumption].
     intros r0 rs0 Hr. unfold get_res in Hr. cbn [set_ress set_ridx ress] in Hr. rewrite E3, slot_set_slot in Hr.
     destruct ((r0 =? h) && (h <? length (ress s))); [discriminate|apply (H r0 rs0 Hr)].
-  - apply (SelInv_same s); [|exact H]. unfold rm_dataset. destruct (ref_set s r) as [h|]; [|reflexivity].
+  - apply (AllRes_same PR s); [|exact H]. unfold rm_dataset. destruct (ref_set s r) as [h|]; [|reflexivity].
     set (users := filter _ (live_handles (anns s))).
     destruct (remove_anns_frame users s) as (_&A1&_). set (s1 := remove_anns s users) in *.
     destruct (remove_anns_frame (rget (samm s1) h) s1) as (_&A2&_). set (s2 := remove_anns s1 (rget (samm s1) h)) in *.
@@ -231,6 +239,18 @@ Proof.
     set (s5 := set_ddam _ _).
     assert (E5 : ress s5 = ress s) by (unfold s5; cbn [set_ddam set_damm set_kamm ress]; rewrite A4; unfold s3; cbn [set_samm ress]; congruence).
     destruct (get_set s5 h); cbn [fst set_sets set_sidx ress]; exact E5.
+Qed.
+
+Theorem step_SelInv s o : SelInv s -> SelInv (fst (step s o)).
+Proof. apply step_AllRes; [intros; constructor|exact annotate_SelInv]. Qed.
+
+Theorem reachable_AllRes (PR : res -> Prop) : (forall id len, PR (mkres id len [])) ->
+  (forall s b, AllRes PR s -> AllRes PR (fst (annotate s b))) -> forall ops, AllRes PR (run ops).
+Proof.
+  intros Hnew Hann. unfold run. intros ops.
+  assert (G : forall ops s, AllRes PR s -> AllRes PR (fold_left (fun s o => fst (step s o)) ops s)).
+  { induction ops0 as [|o ops0 IH]; intros s Gs; cbn [fold_left]; [exact Gs|]. apply IH. apply step_AllRes; assumption. }
+  apply G. intros r rs Hr. unfold get_res, slot in Hr. cbn in Hr. destruct r; discriminate.
 Qed.
 
 Theorem reachable_SelInv : forall ops, SelInv (run ops).
